@@ -340,6 +340,16 @@ def f33_count_first_in_collection():
     return h.i0.entries != 3.0
 
 
+def f34_sparselybin_numpy_beyond_int64():
+    import numpy as np
+    import warnings
+    h = hg.SparselyBin(0.5, lambda x: x)
+    with warnings.catch_warnings():
+        warnings.simplefilter("ignore")
+        h.fill.numpy(np.array([1.0, 1e300, -1e300, 2.0]))
+    return sum(v.entries for v in h.bins.values()) + h.nanflow.entries != h.entries
+
+
 if __name__ == "__main__":
     present = 0
     for name, fn in sorted((k, v) for k, v in globals().items() if k.startswith("f") and k[1:3].isdigit()):
